@@ -256,7 +256,7 @@ def _div_sparse_bad(c):
 
 def _div_dense_00(c):
     a = c.args
-    if c.op != "div" or _rk(c) != "dense" or U.nnz_a(a) < 2:
+    if c.op != "div" or _rk(c) != "dense":
         return False
     A = U.dense_of(a["shape"], a["subs"], a["vals"])
     return any(x == 0 and y == 0 for x, y in zip(A, a["bd"]))
